@@ -208,6 +208,8 @@ class Emb:
 
 EXACT_EMBS = [Emb(1, 0, name="1*k"), Emb(Fraction(1, 4), -3, name="k/4-3"), Emb(8, 16, name="8*k+16"),
               Emb(Fraction(1, 1024), 0, name="k/1024"), Emb(Fraction(1, 2 ** 50), 0, name="k*2^-50"), Emb(2 ** 30, 0, name="k*2^30")]
+# scales beyond any absolute constant a maintainer might reach for (1e10 sentinels, 1e-10 guards, float32 ranges)
+EXTREME_EMBS = [Emb(2 ** 60, 0, name="k*2^60"), Emb(Fraction(1, 2 ** 100), 0, name="k*2^-100")]
 DEC_EMBS = [Emb(Fraction(1, 10), 0, False, "0.1*k"), Emb(Fraction(7, 10), Fraction(-21, 10), False, "0.7*k-2.1"),
             Emb(Fraction(1, 3), 0, False, "k/3"), Emb(Fraction(1, 10 ** 6), 0, False, "1e-6*k"), Emb(10 ** 6, 0, False, "1e6*k")]
 
